@@ -50,8 +50,41 @@ InvGen(gg) == CASE gg = "m1" -> "M1" [] gg = "M1" -> "m1"
                 [] gg = "s2" -> "S2" [] gg = "S2" -> "s2"
                 [] gg = "r1" -> "R1" [] gg = "R1" -> "r1"
                 [] gg = "r2" -> "R2" [] gg = "R2" -> "r2"
+                [] gg = "f1" -> "F1" [] gg = "F1" -> "f1"
 PushGen(fr, gg) == IF fr # <<>> /\ fr[Len(fr)] = InvGen(gg) THEN SubSeq(fr, 1, Len(fr)-1)
                    ELSE Append(fr, gg)
+
+\* Affine maps of the generators with integer coefficients <<a,b,c,d,e,f>>:
+\* (x,y) -> (a x + b y + c, d x + e y + f).  "f1" is a translation much larger than the
+\* universe.  Frames whose words differ may still be the same map (r1 r1 r1 r1 = identity);
+\* two objects are FAR APART when the images of the universe window under their maps are
+\* disjoint: every bounded feature of one lies in the unbounded face of the other, so
+\* containment and equality between them are still defined.
+GenMap(gg) == CASE gg = "m1" -> <<1,0,3,0,1,-2>>    [] gg = "M1" -> <<1,0,-3,0,1,2>>
+                [] gg = "s1" -> <<2,0,0,0,2,0>>
+                [] gg = "r1" -> <<0,-1,0,1,0,0>>    [] gg = "R1" -> <<0,1,0,-1,0,0>>
+                [] gg = "f1" -> <<1,0,1000,0,1,2000>> [] gg = "F1" -> <<1,0,-1000,0,1,-2000>>
+                [] OTHER -> <<>>
+ComposeMap(gm, mm) == <<gm[1]*mm[1] + gm[2]*mm[4], gm[1]*mm[2] + gm[2]*mm[5], gm[1]*mm[3] + gm[2]*mm[6] + gm[3],
+                        gm[4]*mm[1] + gm[5]*mm[4], gm[4]*mm[2] + gm[5]*mm[5], gm[4]*mm[3] + gm[5]*mm[6] + gm[6]>>
+RECURSIVE FrameMap(_)
+FrameMap(fr) == IF fr = <<>> THEN <<1,0,0,0,1,0>>
+                ELSE LET gm == GenMap(fr[Len(fr)])
+                         rest == FrameMap(SubSeq(fr, 1, Len(fr) - 1))
+                     IN IF gm = <<>> \/ rest = <<>> THEN <<>> ELSE ComposeMap(gm, rest)
+SamePlace(fa, fb) == fa = fb \/ (FrameMap(fa) # <<>> /\ FrameMap(fa) = FrameMap(fb))
+ImgBox(mm) ==
+    LET cx == {XS[1], XS[PN+1]}  cy == {YS[1], YS[PN+1]}
+        ix == {mm[1]*xx + mm[2]*yy + mm[3] : xx \in cx, yy \in cy}
+        iy == {mm[4]*xx + mm[5]*yy + mm[6] : xx \in cx, yy \in cy}
+    IN <<Min(ix), Max(ix), Min(iy), Max(iy)>>
+Separated(ma, mb) == LET ba == ImgBox(ma)  bb == ImgBox(mb) IN
+                     ba[2] < bb[1] \/ bb[2] < ba[1] \/ ba[4] < bb[3] \/ bb[4] < ba[3]
+FarApart(oa, ob) == /\ oa.reg \notin {0, Full} /\ ob.reg \notin {0, Full}
+                    /\ FrameMap(oa.frame) # <<>> /\ FrameMap(ob.frame) # <<>>
+                    /\ Separated(FrameMap(oa.frame), FrameMap(ob.frame))
+\* is rb (somewhere far away) contained in ra ?
+FarSubset(rb, ra) == rb = 0 \/ (Unbounded(ra) /\ ~Unbounded(rb))
 
 \* ------------------------------------------------------- region algebra
 Apply(op, ra, rb) ==
@@ -156,7 +189,7 @@ MakeEmpty(dd) == /\ "make" \in Acts
 MakeWhole(dd) == /\ "make" \in Acts
                  /\ Commit(<<heap, [regs EXCEPT ![dd] = WID]>>, [call |-> "whole", d |-> dd])
 
-SameFrame(oa, ob) == oa.reg \in {0, Full} \/ ob.reg \in {0, Full} \/ oa.frame = ob.frame
+SameFrame(oa, ob) == oa.reg \in {0, Full} \/ ob.reg \in {0, Full} \/ SamePlace(oa.frame, ob.frame)
 
 Bin(op, dd, aa, bb) ==
     /\ "bin" \in Acts /\ op \in Ops /\ Held(aa) /\ Held(bb) /\ CanAlloc(dd)
@@ -218,14 +251,23 @@ Drop(dd) ==
 \* queries: the answer is a function of the current geometry only (C10); the only thing a
 \* query may change is the cache flag
 QSubset(aa, bb) ==     \* `b in a`
-    /\ "query" \in Acts /\ Held(aa) /\ Held(bb) /\ SameFrame(Obj(aa), Obj(bb))
+    /\ "query" \in Acts /\ Held(aa) /\ Held(bb) /\ (SameFrame(Obj(aa), Obj(bb)) \/ FarApart(Obj(aa), Obj(bb)))
     /\ Commit(<<[heap EXCEPT ![regs[aa]].warm = (regs[aa] > 2), ![regs[bb]].warm = (regs[bb] > 2)], regs>>,
-              [call |-> "in", a |-> aa, b |-> bb, ans |-> RSubset(Obj(bb).reg, Obj(aa).reg)])
+              [call |-> "in", a |-> aa, b |-> bb,
+               ans |-> IF SameFrame(Obj(aa), Obj(bb)) THEN RSubset(Obj(bb).reg, Obj(aa).reg) ELSE FarSubset(Obj(bb).reg, Obj(aa).reg)])
 QEq(aa, bb) ==
-    /\ "query" \in Acts /\ Held(aa) /\ Held(bb) /\ SameFrame(Obj(aa), Obj(bb))
+    /\ "query" \in Acts /\ Held(aa) /\ Held(bb) /\ (SameFrame(Obj(aa), Obj(bb)) \/ FarApart(Obj(aa), Obj(bb)))
     /\ Commit(<<[heap EXCEPT ![regs[aa]].warm = (regs[aa] > 2), ![regs[bb]].warm = (regs[bb] > 2)], regs>>,
               [call |-> "eq", a |-> aa, b |-> bb,
-               ans |-> Obj(aa).reg = Obj(bb).reg /\ (Obj(aa).reg \in {0, Full} \/ Obj(aa).frame = Obj(bb).frame)])
+               ans |-> SameFrame(Obj(aa), Obj(bb)) /\ Obj(aa).reg = Obj(bb).reg])
+\* a binary query between two shapes whose relative position the model does not interpret
+\* (different, overlapping frames): the answer is not constrained, but like every query it
+\* must leave its operands alone - and it exercises whatever the implementation caches
+QProbe(aa, bb) ==
+    /\ "query" \in Acts /\ Defined(aa) /\ Defined(bb)
+    /\ ~SameFrame(Obj(aa), Obj(bb)) /\ ~FarApart(Obj(aa), Obj(bb))
+    /\ Commit(<<[heap EXCEPT ![regs[aa]].warm = TRUE, ![regs[bb]].warm = TRUE], regs>>,
+              [call |-> "probe", a |-> aa, b |-> bb])
 QMeasure(aa) ==        \* area, moments, boundary length and orientation, box, kind
     /\ "query" \in Acts /\ Held(aa)
     /\ Commit(<<[heap EXCEPT ![regs[aa]].warm = (regs[aa] > 2)], regs>>,
@@ -243,7 +285,7 @@ SNext ==
     \/ \E aa \in Regs, what \in {"move","scale","rotate"} : BadTransform(aa, what)
     \/ \E dd \in Regs, aa \in Regs : Alias(dd, aa)
     \/ \E dd \in Regs : Drop(dd)
-    \/ \E aa \in Regs, bb \in Regs : QSubset(aa, bb) \/ QEq(aa, bb)
+    \/ \E aa \in Regs, bb \in Regs : QSubset(aa, bb) \/ QEq(aa, bb) \/ QProbe(aa, bb)
     \/ \E aa \in Regs : QMeasure(aa)
 
 SSpec == SInit /\ [][SNext]_svars
@@ -287,7 +329,7 @@ ResultIsSetAlgebra ==
 
 \* C03 consequences at the level of the model: b in a  =>  a|b = a  and  a&b = b
 SubsetLaw ==
-    [][obs'.call = "in" /\ obs'.ans =>
+    [][(obs'.call = "in" /\ obs'.ans /\ SameFrame(heap[regs[obs'.a]], heap[regs[obs'.b]])) =>
          /\ ROr(heap[regs[obs'.a]].reg, heap[regs[obs'.b]].reg) = heap[regs[obs'.a]].reg
          /\ RAnd(heap[regs[obs'.a]].reg, heap[regs[obs'.b]].reg) = heap[regs[obs'.b]].reg]_svars
 
@@ -298,6 +340,14 @@ NoTrivialStart == TLCGet("level") > 3 \/ \A rr \in Regs : regs[rr] \notin {EID, 
 \* are covered by the deterministic one-step corpus
 TransversalOnly == obs.call = "bin" => (obs.cls = "T" /\ obs.segok)
 SimDomain == NoTrivialStart /\ TransversalOnly
+\* history simulations: build the objects first, then only transform / query / operate
+HistDomain ==
+    /\ SimDomain
+    /\ (TLCGet("level") <= Cardinality(Regs) + 1) => obs.call \in {"init", "mkreg"}
+    /\ (TLCGet("level") > Cardinality(Regs) + 1) =>
+          /\ obs.call \notin {"mkreg", "make", "empty", "whole"}
+          /\ \A r1 \in Regs : regs[r1] > 2 /\ \A r2 \in Regs : (r1 # r2) => regs[r1] # regs[r2]
+    /\ ("d" \in DOMAIN obs /\ obs.call = "transform") => obs.d = obs.a
 \* bound for simulation / exhaustive runs
 DepthBound == TLCGet("level") <= 40
 =============================================================================
